@@ -38,7 +38,7 @@ def bernoulli_piecewise(rng, n, lo=0.02, hi=0.7, seg=(3, 120), patterns=True):
     return out[:n]
 
 
-def level_shift_stream(rng, n, seg=(5, 120), scale_choices=(1.0,), offset=0.0, heavy=False):
+def level_shift_stream(rng, n, seg=(5, 120), scale_choices=(1.0,), offset=0.0, heavy=False, const=True):
     """real-valued stream with level / variance shifts every few samples"""
     out = []
     mu = float(rng.normal(0, 1))
@@ -51,9 +51,9 @@ def level_shift_stream(rng, n, seg=(5, 120), scale_choices=(1.0,), offset=0.0, h
         sc = float(rng.choice(scale_choices))
         if heavy and rng.random() < 0.2:
             x = rng.standard_t(2, size=L) * sd + mu
-        elif rng.random() < 0.08:
+        elif const and rng.random() < 0.08:
             x = np.full(L, mu)
-        elif rng.random() < 0.08:
+        elif const and rng.random() < 0.08:
             x = np.round(rng.normal(mu, sd, size=L))
         else:
             x = rng.normal(mu, sd, size=L)
